@@ -15,6 +15,7 @@ tips ^ends), BfsOrder (gix "as mentioned in the graph"), ValidPqRun (a walk "sor
     disjoint components of one repository, so ONE rev-list process walks one query of every world and its output is
     projected onto the worlds (the queue disciplines are projection invariant).
 """
+import concurrent.futures
 from vf import *
 from props import c46
 from props.c46 import Repo, BASE_T, gitc
@@ -39,14 +40,13 @@ def run_gix(ctx, binary, repo, wq, variants=VARIANTS, chunk=3000):
     res = {}
     for variant in variants:
         path = repo.variants[variant]
-        cases = []
-        for i in range(0, len(wq), chunk):
-            cases.append({"objects": os.path.join(path, "objects"),
-                          "cgraph": "" if variant == "none" else os.path.join(path, "objects", "info"),
-                          "queries": [{"tips": repo.hexes(w, q["tips"]), "ends": repo.hexes(w, q["ends"]),
-                                       "cutoff": BASE_T + q["cutoff"]} for w, q in wq[i:i + chunk]]})
         flat = []
-        for r in ctx.harness(binary, cases):
+        for i in range(0, len(wq), chunk):      # one executor process per chunk (it does not free its walkers)
+            case = {"objects": os.path.join(path, "objects"),
+                    "cgraph": "" if variant == "none" else os.path.join(path, "objects", "info"),
+                    "queries": [{"tips": repo.hexes(w, q["tips"]), "ends": repo.hexes(w, q["ends"]),
+                                 "cutoff": BASE_T + q["cutoff"]} for w, q in wq[i:i + chunk]]}
+            r = ctx.harness(binary, [case])[0]
             if "got" not in r:
                 raise ToolError("executor failed outside of a walk: %s" % json.dumps(r)[:300])
             flat.extend(r["got"]["results"])
@@ -60,7 +60,7 @@ def observed(repo, w, r):
     return {"seq": repo.numbers(w, r["seq"])}
 
 
-def git_walks(ctx, repo, wq, variant, modes):
+def git_walks(ctx, repo, wq, variant, modes, threads=6):
     """binding C. wq: [(w, query)]; returns {gmode: [sequence (commit numbers) per entry]}.
     Queries of different worlds share one rev-list process; two queries of one world never do."""
     out = {m: [None] * len(wq) for m in modes}
@@ -68,35 +68,40 @@ def git_walks(ctx, repo, wq, variant, modes):
     for i, (w, q) in enumerate(wq):
         rounds.setdefault(w, []).append(i)
     nround = max(len(v) for v in rounds.values())
-    nproc = 0
+    jobs = []
     for k in range(nround):
         batch = [v[k] for v in rounds.values() if len(v) > k]
         for m in modes:
-            opts, _field = GIT[m]
             if m != "g_cut":
-                groups = {None: [i for i in batch if m.startswith("g_topo") or m.startswith("g_date") or not wq[i][1]["ends"]]}
+                groups = {None: [i for i in batch if m in LIMITED or not wq[i][1]["ends"]]}
             else:
                 groups = {}
                 for i in batch:
                     if not wq[i][1]["ends"]:
                         groups.setdefault(wq[i][1]["cutoff"], []).append(i)
             for cutoff, idx in groups.items():
-                if not idx:
-                    continue
-                lines = []
-                for i in idx:
-                    w, q = wq[i]
-                    lines += repo.hexes(w, q["tips"]) + ["^" + h for h in repo.hexes(w, q["ends"])]
-                args = [o % (BASE_T + cutoff) if "%d" in o else o for o in opts]
-                text = gitc(["rev-list"] + args + ["--stdin"], cwd=repo.variants[variant], input=("\n".join(lines) + "\n").encode()).decode()
-                nproc += 1
-                per = {wq[i][0]: [] for i in idx}
-                for h in text.split():
-                    w, c = repo.index[h]
-                    per[w].append(c)
-                for i in idx:
-                    out[m][i] = per[wq[i][0]]
-    return out, nproc
+                if idx:
+                    jobs.append((m, cutoff, idx))
+
+    def one(job):
+        m, cutoff, idx = job
+        opts, _field = GIT[m]
+        lines = []
+        for i in idx:
+            w, q = wq[i]
+            lines += repo.hexes(w, q["tips"]) + ["^" + h for h in repo.hexes(w, q["ends"])]
+        args = [o % (BASE_T + cutoff) if "%d" in o else o for o in opts]
+        text = gitc(["rev-list"] + args + ["--stdin"], cwd=repo.variants[variant], input=("\n".join(lines) + "\n").encode()).decode()
+        per = {wq[i][0]: [] for i in idx}
+        for h in text.split():
+            w, c = repo.index[h]
+            per[w].append(c)
+        for i in idx:
+            out[m][i] = per[wq[i][0]]
+
+    with concurrent.futures.ThreadPoolExecutor(threads) as ex:
+        list(ex.map(one, jobs))
+    return out, len(jobs)
 
 
 def applicable(mode, q):
@@ -106,8 +111,11 @@ def applicable(mode, q):
 def gen_runs(ctx):
     if ctx.thorough:
         return [{"MinN": 1, "MaxN": 4, "MaxPar": 3, "Pats": '{"inc", "eq", "dec", "zig", "pairs", "rootnew"}', "MaxTips": 2, "MaxEnds": 2, "LawN": 4},
+                {"MinN": 3, "MaxN": 4, "MaxPar": 2, "Pats": '{"pairs", "eq"}', "MaxTips": 3, "MaxEnds": 0, "LawN": 0},
                 {"MinN": 5, "MaxN": 5, "MaxPar": 2, "Pats": '{"eq", "pairs", "dec"}', "MaxTips": 1, "MaxEnds": 1, "LawN": 0}]
-    return [{"MinN": 1, "MaxN": 4, "MaxPar": 2, "Pats": '{"inc", "eq", "dec"}', "MaxTips": 2, "MaxEnds": 1, "LawN": 3}]
+    # the second run reaches ties between a starting tip and a later queued parent (three tips, pairwise equal times)
+    return [{"MinN": 1, "MaxN": 4, "MaxPar": 2, "Pats": '{"inc", "eq", "dec"}', "MaxTips": 2, "MaxEnds": 1, "LawN": 3},
+            {"MinN": 4, "MaxN": 4, "MaxPar": 1, "Pats": '{"pairs"}', "MaxTips": 3, "MaxEnds": 0, "LawN": 0}]
 
 
 def event(d, mode, q, seq, nograph=False):
@@ -118,9 +126,13 @@ def event(d, mode, q, seq, nograph=False):
 def record(ctx, kind, d, q, mode, variants, obs, want=None):
     cl = "failed" if "failed" in obs else ("foreign" if None in obs["seq"] else
                                            "set" if want is not None and sorted(obs["seq"]) != sorted(want) else "order")
+    # descriptive attributes of the input (for known-finding matchers; no verdict is derived from them)
+    traits = {"tip_in_ends": bool(set(q["tips"]) & set(q["ends"])), "has_ends": bool(q["ends"]), "several_tips": len(q["tips"]) > 1,
+              "equal_times": len(set(d["time"])) < len(d["time"]), "first_parent": mode.endswith("_fp"),
+              "walker": "Topo" if mode.startswith("t_") else "Simple"}
     ctx.violation({"kind": kind, "case": {"par": d["par"], "time": d["time"], "tips": q["tips"], "ends": q["ends"],
                                           "cutoff": q["cutoff"], "mode": mode, "variant": variants[0]},
-                   "mode": mode, "failing_variants": variants, "observed": obs, "expected": want,
+                   "mode": mode, "failing_variants": variants, "observed": obs, "expected": want, "traits": traits,
                    "classes": ["%s:%s" % (mode, cl)]})
 
 
@@ -148,8 +160,8 @@ def run(ctx):
                 if variant == "none" and m in LIMITED and not worlds[w]["skewfree"]:
                     continue    # Dag!SkewFree: without generation numbers git's limited walks are heuristic under clock skew
                 naudit += 1
-                # without a commit-graph sort_in_topological_order counts every shown parent
-                f = field + "all" if variant == "none" and m in ("g_topo_fp", "g_date_fp") else field
+                # git's two implementations of topological first-parent walks (Dag!TopoOrderE "all" / "graph")
+                f = field + ("all" if variant == "none" else "graph") if m in ("g_topo_fp", "g_date_fp") else field
                 if got[m][i] != q[f]:
                     audit_mismatch(ctx, "Dag order operator for " + m, {"par": worlds[w]["par"], "time": worlds[w]["time"], "tips": q["tips"],
                                                                       "ends": q["ends"], "cutoff": q["cutoff"], "git": got[m][i],
@@ -181,7 +193,7 @@ def run(ctx):
                     record(ctx, "gen", d, q, mode, variants, obs)
                 elif mode in EXACT:
                     want = q[EXACT[mode]]
-                    if mode in ("t_topo_fp", "t_date_fp") and want != q[EXACT[mode] + "all"]:
+                    if mode in ("t_topo_fp", "t_date_fp") and not (want == q[EXACT[mode] + "all"] == q[EXACT[mode] + "graph"]):
                         # Dag!FpOrderDefined fails: git's two algorithms disagree, only the set is judged
                         if sorted(obs["seq"]) != sorted(want):
                             record(ctx, "gen", d, q, mode, variants, obs, want)
@@ -211,7 +223,14 @@ def run(ctx):
         summary[k] = summary.get(k, 0) + 1
     if summary:
         ctx.log("disagreements by class and variant: %s" % json.dumps(summary, sort_keys=True))
+    # smallest inputs first, and one of every signature before a second of any (finish() writes the first few)
     ctx.violations.sort(key=lambda v: (len(v["case"]["par"]), len(v["case"]["tips"]) + len(v["case"]["ends"]), sum(map(len, v["case"]["par"]))))
+    rank, seen = {}, {}
+    for v in ctx.violations:
+        sig = (v["classes"][0].split(":")[1], v["mode"].replace("_fp", ""), json.dumps(v["traits"], sort_keys=True))
+        seen[sig] = seen.get(sig, 0) + 1
+        rank[id(v)] = seen[sig]
+    ctx.violations.sort(key=lambda v: rank[id(v)])
     ctx.cov["rule"] = ("A: every history of <= MaxN commits x time patterns x (tips <= MaxTips in order, ends <= MaxEnds) covering all "
                        "childless commits x 11 walk modes x 3 commit-graph variants; B: seeded random histories of 6..16 commits. "
                        "Non-trivial = every (world, tips, ends, mode) walk; generator constants: %s" % json.dumps(gen_runs(ctx)))
